@@ -424,7 +424,8 @@ def render_params(rng, vals, lay, cmt_at):
 
 
 RISKY = ["comment-before-semicolon", "comment-between-id-and-eq", "comment-before-endsec", "whitespace-after-keyword",
-         "comment-between-keyword-and-paren", "two-comments-one-instance", "two-comments-before-instance"]
+         "comment-between-keyword-and-paren", "two-comments-one-instance", "two-comments-before-instance",
+         "apostrophe-in-comment", "comment-open-in-comment"]
 
 
 def render_instance(rng, x, lay=True, cmt=True, risky=None):
@@ -441,6 +442,9 @@ def render_instance(rng, x, lay=True, cmt=True, risky=None):
     out = ws(rng, lay)
     if where == "lead":
         out += comment(rng) + ws(rng, lay)
+    if risky in ("apostrophe-in-comment", "comment-open-in-comment"):
+        body = rng.choice(["it's here", "don't", "'", " a'b'c "]) if risky == "apostrophe-in-comment" else rng.choice(["see /* here", "/*", " x /* y /* z "])
+        out += "/*" + body + "*/" + ws(rng, lay)
     if risky == "two-comments-before-instance":
         out += comment(rng, semi=False) + ws(rng, lay) + comment(rng, semi=False) + ws(rng, lay)
     out += f"#{x['id']}" + ws(rng, lay)
